@@ -91,6 +91,13 @@ static std::string handle(const std::string& line)
         std::string text = pv::unhex(t[1]);
         return "M " + parse(text, keys_of(text));
     }
+    if (t.size() == 3 && t[0] == "R")
+    {
+        // a text that was only stored (MediaType(std::string) does not parse by default), then a setter: nothing of the text is lost
+        Mime::MediaType m(pv::unhex(t[1]));
+        m.setQuality(Mime::Q(static_cast<Mime::Q::Type>(atoi(t[2].c_str()))));
+        return "R " + pv::hex(m.toString());
+    }
     if (t.size() >= 3 && t[0] == "S")
     {
         // parse, then setQuality / setParam, then what the value writes is parsed again
